@@ -1086,6 +1086,7 @@ def _execute(cfg, tape, world, wf, m, multi, viol, stats, h, want_trace):
         _ctxbase.broadcast_message = lambda *a, **k: None      # terminal broadcast: stub
         run.disk = True
         run.default_ctx = tape.draw(3, 'ctx.default') == 2
+        run.default_ctx_cwd = run.default_ctx and tape.draw(2, 'ctx.cwd') == 1
         if run.default_ctx:
             # execute_workflow(context=None, path=...) creates LocalDirectoryContext(<workflow
             # name>, ref=path) itself
@@ -1156,7 +1157,11 @@ def _execute(cfg, tape, world, wf, m, multi, viol, stats, h, want_trace):
         try:
             with dask.config.set(pool=env.pool, chunksize=chunks):
                 if run.disk and getattr(run, 'default_ctx', False):
-                    outcome['value'] = pw.execute_workflow(wf, path=_disk_root())
+                    if run.default_ctx_cwd:
+                        os.chdir(_disk_root())      # (dask's run() changes and restores the cwd)
+                        outcome['value'] = pw.execute_workflow(wf)           # context below the cwd
+                    else:
+                        outcome['value'] = pw.execute_workflow(wf, path=_disk_root())
                 else:
                     outcome['value'] = pw.execute_workflow(wf, context=ctx)
         except Exception as e:
